@@ -24,7 +24,7 @@ type FuncResult struct {
 
 func NewExec(p *Prog, fn *ssa.Function) *Exec {
 	ex := &Exec{p: p, root: fn, rootKey: FuncKey(fn), entry: map[string]*Val{}, globals: map[*ssa.Global]*Obj{}, oblNames: map[string]int{},
-		trustedUsed: map[string]bool{}, calledKeys: map[string]bool{}, cellMeta: map[string]cellMeta{}, assertsHit: map[string]bool{}}
+		trustedUsed: map[string]bool{}, calledKeys: map[string]bool{}, cellMeta: map[string]cellMeta{}, assertsHit: map[string]bool{}, nogrowHit: map[int]bool{}}
 	ex.ghost = ex.newObj("ghost", types.NewStruct(nil, nil))
 	ex.ghost.Symbolic = true
 	ex.ghost.Global = true
@@ -121,6 +121,11 @@ func VerifyFunc(p *Prog, fn *ssa.Function) (res *FuncResult) {
 		ex.obls = append(ex.obls, o)
 	}
 	if ct != nil {
+		for k := range ct.NoGrow {
+			if !ex.nogrowHit[k] {
+				ex.missingLoop = append(ex.missingLoop, fmt.Sprintf("nogrow anchor: append #%d", k))
+			}
+		}
 		for _, a := range ct.Asserts {
 			if !ex.assertsHit[fmt.Sprintf("%s:%d", a.Callee, a.K)] {
 				ex.missingLoop = append(ex.missingLoop, fmt.Sprintf("assert anchor: call %s #%d", a.Callee, a.K))
